@@ -25,5 +25,8 @@ def run(ctx) -> None:
     ctx.rules_run.append("U8")
     from . import varint
     varint.rule_N7(ctx, "U8")      # the raw bytes kept for an unknown field are all the bytes that were read for it (tag included)
+    ctx.rules_run.append("U10")
+    from .c09 import rule_L5d
+    rule_L5d(ctx, "U10")           # a delimited frame announces all it contains, the unknown fields included
     ctx.rules_run.append("U6")
     decode.rule_M2b(ctx, "U6")     # any field number of a newer schema (1 .. 2**29-1) is readable
